@@ -166,7 +166,7 @@ def glue_unit(replay_bin, schemas, canary=False, flt=None):
         path = os.path.join(VERIF, 'contracts', 'zoo', sch)
         try:
             txt = glue.macro_output(replay_bin, path)
-            g, rules = glue.transform(txt, REPO, glue.parse_facts(open(path).read()))
+            g, rules = glue.transform(txt, REPO, glue.parse_facts(open(path).read()), glue.parse_cfacts(open(path).read()))
             n_fns = len(re.findall(r'(?<!spec )\bfn \w+', g))
             if canary:
                 g, n_ins = glue.insert_canaries(g)
@@ -326,7 +326,7 @@ def gluezoo_build():
             table.append('    ("%s::%s", rt::<%s::%s>),' % (sch, m.group(1), mod, m.group(1)))
     gen = ('// GENERATED from contracts/zoo/*.asn by tools/run.py -- do not edit\n' + '\n'.join(mods)
            + '\npub const TYPES: &[(&str, fn(&[u8], usize) -> Result<bool, String>)] = &[\n' + '\n'.join(table) + '\n];\n')
-    path = os.path.join(REPLAY_DIR, 'src', 'bin', 'gluezoo_gen.rs')
+    path = os.path.join(REPLAY_DIR, 'src', 'gluezoo_gen.rs')      # (not under src/bin: cargo would take it for a binary of its own)
     if not os.path.exists(path) or open(path).read() != gen:
         open(path, 'w').write(gen)
     replay_build()      # Cargo.toml / Cargo.lock in place
